@@ -84,10 +84,12 @@ Proof.
   - exists x. split; auto. split; [lia|auto].
 Qed.
 
-Lemma tinv_recv dmax a s pn elic t d dels ok s' : Inv s -> TInv dmax a s ->
+(* needs only the soundness half of Inv: used mid-packet by proofs/RecvAckT.v, where "an armed timer has something to
+   report" does not hold yet *)
+Lemma tinv_recv0 dmax a s pn elic t d dels ok s' : Inv0 s -> TInv dmax a s ->
   wf_op_t dmax s (Recv pn elic t d dels ok) -> recv s pn elic t d dels ok = Ok s' -> TInv dmax a s'.
 Proof.
-  intros [I Ne] T ((Hp & Hd) & Hc & Hdd) H. unfold recv in H.
+  intros I T ((Hp & Hd) & Hc & Hdd) H. unfold recv in H.
   destruct (delivers (aq s) dels) as [q|] eqn:E; [|discriminate]. cbn in H. inversion H; subst; clear H.
   destruct (delivers_spec _ _ _ (i_wf _ I) E) as (Wq & _ & Keep).
   destruct T as [A N R O].
@@ -134,6 +136,10 @@ Proof.
         -- intros q0 h Hq0. destruct (i_frames _ I q0 h Hq0). lia.
   - constructor; cbn; auto; try congruence. intros x Hx. specialize (R x Hx). lia.
 Qed.
+
+Lemma tinv_recv dmax a s pn elic t d dels ok s' : Inv s -> TInv dmax a s ->
+  wf_op_t dmax s (Recv pn elic t d dels ok) -> recv s pn elic t d dels ok = Ok s' -> TInv dmax a s'.
+Proof. intros [I _]. apply tinv_recv0. exact I. Qed.
 
 Lemma tinv_init dmax a : TInv dmax a (init a).
 Proof. constructor; cbn; auto; try congruence. intros _ _ L t []. Qed.
